@@ -221,7 +221,24 @@ def validate_traces(ck, traces, tf, dev):
     cfg = write_cfg(os.path.join(ck.tmp, "c14_trace.cfg"),
                     constants={"Dev": tla_set(dev) if dev else "{}", "TB": 48}, spec="Spec",
                     invariants=["ModelNoError", "OneTokenPending"], deadlock=True)
-    todo = list(traces)
+    # one batch = one TLC behaviour; TLC cannot handle behaviours of 65,536 or more states: batch by input bytes
+    # (a tokenizer step consumes at least one byte or is one of a bounded number of state changes per token)
+    batches, cur, size = [], [], 0
+    for tr in traces:
+        if cur and size + len(tr["data"]) > 14000:
+            batches.append(cur)
+            cur, size = [], 0
+        cur.append(tr)
+        size += len(tr["data"])
+    if cur:
+        batches.append(cur)
+    for todo in batches:
+        rejected += _validate_batch(ck, todo, tf, cfg)
+    return rejected
+
+
+def _validate_batch(ck, todo, tf, cfg):
+    rejected = 0
     while todo:
         with open(tf, "w") as f:
             json.dump(todo, f)
